@@ -17,6 +17,9 @@ private:
 	static constexpr unsigned int ll = 15;
 
 	uint64_t pfx_of(uint64_t k, unsigned int d) {
+		// The prefix at depth zero is empty (and a shift by 64 would be undefined).
+		if(!d)
+			return 0;
 		return k & (uint64_t(-1) << (64 - d * 4));
 	}
 
